@@ -19,10 +19,12 @@ struct A15FixOp
 };
 struct A15Plan
 {
-  int mode;               // 0 round trip fault-free, 1 round trip with the channel cut at `cut`, 2 fixed-capacity device
+  int mode;               // 0 round trip fault-free, 1 round trip with the channel cut at `cut`, 2 fixed-capacity device,
+                          // 3 a reader attached to the writer's buffer while the writer keeps writing
   int nvals;
   A15Value vals[A15_MAXVALS];
-  int cut_choice;         // resolved against the written size at run time
+  int cut_choice;         // resolved against the written size at run time (mode 3: write/read pattern bits)
+  int reader_at;          // mode 3: the reader is created after this many values have been written
   int capacity_choice;    // mode 2: 0 needed-1, 1 needed, 2 needed+1, 3 random
   int capacity_random;
   int nfix;
